@@ -149,10 +149,13 @@ def c26(pid, tier):
 @register("C28")
 def c28(pid, tier):
     return run_kani_check(pid, tier, [("common", "circuit_config_policy_is_exactly_the_documented_conjunction")],
-                          ["zk_circuits_common::circuit::validate_circuit_config", "log2_ceil"],
+                          ["zk_circuits_common::circuit::validate_circuit_config", "log2_ceil", "wormhole_circuit::circuit::circuit_logic::WormholeCircuit::new (MIR)",
+                           "wormhole_aggregator::private_batch::circuit::circuit_logic::PrivateBatchCircuit::new (MIR)", "wormhole_aggregator::public_batch::circuit::circuit_logic::PublicBatchCircuit::new (MIR)"],
                           {"config": "every CircuitConfig whose nine numeric knobs are arbitrary usize values (full width), remaining fields from standard_recursion_config",
-                           "outside": "that each constructor calls the policy first is established by the constructors' first statement (WormholeCircuit::new, PrivateBatchCircuit::new, PublicBatchCircuit::new) and is not a solver claim; the memprof CLI flag validation is not encoded"},
-                          [], timeout_q=600, parallel=1)
+                           "constructors": "WormholeCircuit::new, PrivateBatchCircuit::new, PublicBatchCircuit::new from their MIR (over-approximated paths, every other call opaque): the config parameter reaches no other function, and no path returns Ok, unless validate_circuit_config(&config) returned Ok earlier on the path; counterexamples are confirmed by the real constructors on eleven configs failing exactly one clause (csx-emit cfgrun, catch_unwind)",
+                           "outside": "what the builder does with a config that passed the policy (the 'without panicking' clause is established only up to the hand-over of the config: a rejected config never reaches builder code); constructors of the provers/aggregator that forward to these three; the memprof CLI flag validation is not encoded"},
+                          ["constructor queries: every call other than validate_circuit_config is opaque (havoc: unknown Results may be Ok or Err); a call that receives the config parameter ends the path as a sink"],
+                          timeout_q=600, parallel=1, mir="C28")
 
 
 @register("C29")
@@ -235,6 +238,15 @@ def mir_queries(which):
                 xv = int(str(r[3].eval(x, model_completion=True)))
                 got = subprocess.run([csxlib.EMIT_BIN, "call", "quantize", str(xv)], capture_output=True, text=True).stdout.strip()
                 cexs.append((rr, f"try_u128_to_quantized_felt({xv}) = {got}", got.startswith("Ok") != (xv // q <= 2 ** 32 - 1)))
+    if which == "C28":
+        import cfgcheck
+        for name, verdict, secs, info in cfgcheck.run(kanilib.WORK):
+            rr = rec(name, verdict, secs)
+            if verdict == "CEX":
+                path = os.path.join(kanilib.VERIF, "evidence", "replays", "C28.constructors.txt")
+                os.makedirs(os.path.dirname(path), exist_ok=True)
+                reproduced, text = cfgcheck.replay(csxlib.EMIT_BIN, path)
+                cexs.append((rr, text + f" (details: {path})", reproduced))
     return out, cexs
 
 
